@@ -28,7 +28,7 @@ from ..model.c2x_util import panic_file
 ID = "C35"
 LEVEL = "exploration"
 BUDGET = {"quick": 20, "thorough": 240}
-FLOOR = {"quick": 600, "thorough": 900}
+FLOOR = {"quick": 400, "thorough": 600}
 RULE = ("per case one conversion name and a batch of 32 values rendered to canonical text: i64 edges, finite "
         "doubles over all exponents in three renderings, every documented boolean spelling x letter-case "
         "pattern and integers, arbitrary bytes, instants over 1678-2262 (second boundaries, DST transition "
